@@ -111,9 +111,19 @@ def run_one(args):
         if o["sub"][0]["status"] != 204 or any(s["status"] != 200 or s.get("hung") for s in o["sub"][1:]):
             problems.append(("request-failed", "release/update burst answered %r" % [s["status"] for s in o["sub"]]))
         used_total += len(burst)
-        o = P.do({"op": "release", "ref": r1, "body": body(a, 999, 0, 999, 0, cid=1)})
-        if o["status"] != 204:
-            problems.append(("session-lost", "release of %s answered %s" % (r1, o["status"])))
+        # the release of the other session arrives twice at the same moment (a retransmission): exactly one of the two
+        # finds the session, the other is answered 404, and the final usage is rated and recorded once
+        rb = body(a, 999, 1, 999, 0, cid=1)
+        o = P.do({"op": "burst", "ms": 0, "burst": [{"op": "release", "ref": r1, "body": rb}, {"op": "release", "ref": r1, "body": rb}]})
+        bursts += 1
+        reqs += 2
+        sts = sorted(s["status"] for s in o["sub"])
+        if sts != [204, 404] or any(s.get("hung") for s in o["sub"]):
+            problems.append(("double-release", "two concurrent releases of %s answered %r (one 204 and one 404 expected)" % (r1, sts)))
+        used_total += 1
+        got = [e[5] for r in ue(o, a).get("records", []) if r["sessionId"] == r1 for e in r["usages"] if e[5] == 999]
+        if len(got) != 1:
+            problems.append(("usage-not-exactly-once", "session %s: the container of its release is recorded %d times" % (r1, len(got))))
         bal = int(o["db"][a + "|1"]["quota"])
         res = int((ue(o, a).get("reserved") or {}).get("1", 0))
         if bal + res != init - used_total:
